@@ -113,6 +113,11 @@ CLAIMED = {
    note=TB + "Partial because the cost semantics is a model of allocator-visible behaviour, validated by measurement, not derived from the code; what 'allocates' lives in Vec/Box of the standard library. The proof covers the algorithmic claim (linear working set on every input).",
    technique="Coq proof of a linear bound on an instrumented cost model + counting-allocator measurement on /repo",
    design="5/C18"),
+ 'C05': dict(
+   text="The diff_ref template family is transcribed as its own mutual fixpoint (nested calls go to diff_ref, Into is the conversion of each entry); machine-checked: map into (diff_ref s a b) = diff s a b for every shape and pair, hence same number of entries, same fields, same order, and (by the follower theorem) the same effect on a and on every base equivalent to a. In a pure model borrowed and owned payloads coincide, so this theorem compares two transcriptions of the generated control structure and closes by computation: for this property the WEIGHT IS ON THE CORRESPONDENCE, which runs both real code paths (diff; diff_ref then Into) on every case of the derive workload, compares each with the model entry for entry, and applies both to a and to an equivalent base.",
+   note=TB + 'Values are a universal tree with Z atoms; borrowed payloads are modelled by the values they point to.',
+   technique="Coq model of both template families (short proof) + both real code paths executed against the model on generated crates",
+   design="5/C05"),
 }
 NA_REASON = "check not wired into the manifest yet at this commit (build in progress; see DESIGN.md section 5 for the planned theorem and tie)"
 
